@@ -27,7 +27,7 @@ gen(uint64_t seed, const std::string& tier, long idx)
   Plan p;
   p.seed = seed;
   const bool thorough = tier == "thorough";
-  static const char* scen[] = { "fwd", "bck", "lazy", "cache", "objfn", "norm", "scatter", "fwd", "bck", "cache", "array", "lm" };
+  static const char* scen[] = { "fwd", "bck", "lazy", "cache", "objfn", "norm", "scatter", "fwd", "bck", "cache", "array", "lm", "bck_nt" };
   Op o;
   o.kind = scen[idx % (sizeof scen / sizeof *scen)];
   p.ops.push_back(o);
